@@ -33,12 +33,16 @@ checks = {
    note="segment orientation is not part of the property and is not checked (the pristine tables are not consistently oriented)"),
  "C11": dict(engine="S", design="3/C11",
    technique="stateless model checking of the real code under a controlled scheduler (preemption-bounded DFS over schedules), reference = written sequence",
-   text="The real Triangle3Buffer/Line2Buffer, sdf.WriteTriangles, render.ToTriangles, ToSTL and ToSVG (sync, channels and go statements rewritten onto the cooperative scheduler by a type-checked source rewrite that refuses unknown constructs) driven by scripted producers emitting numbered items from a reused, poisoned scratch slice: every sequence of <=2 (3 thorough) Write calls over batch sizes {0,1,2,5,T-1,T,T+1,2T-1,2T,2T+3}, one producer under ALL interleavings with the consumer, two producers (7x7 batch plans) under all schedules with <=2 (3) preemptions, three producers (thorough). Oracle per execution: delivered sequence == written sequence (P=1), multiset + per-producer order (P>1), STL count field/length, no deadlock/panic/left-over goroutine.",
+   text="The real Triangle3Buffer/Line2Buffer, sdf.WriteTriangles, render.ToTriangles, ToSTL and ToSVG (sync, channels and go statements rewritten onto the cooperative scheduler by a type-checked source rewrite that refuses unknown constructs) driven by scripted producers emitting numbered items from a reused, poisoned scratch slice: every sequence of <=2 (3 thorough) Write calls over batch sizes {0,1,2,5,T-1,T,T+1,2T-1,2T,2T+3}, one producer under ALL interleavings with the consumer, two producers (7x7 batch plans) under ALL interleavings, three producers with <=3 preemptions (thorough: all) - unbounded search uses happens-before state hashing to skip schedules that only reorder independent operations. Oracle per execution: delivered sequence == written sequence (P=1), multiset + per-producer order (P>1), STL count field/length, no deadlock/panic/left-over goroutine.",
    note="interleavings at synchronisation operations only (sufficient for race-free code; races are C10); 3MF/DXF content is C15, their termination C12"),
  "C12": dict(engine="S", design="3/C12",
    technique="stateless model checking under a controlled scheduler x exhaustive fault-plan enumeration on an in-memory file system; deadlock detection instead of timeouts",
-   text="render.ToSTL on the in-memory file system under every fault plan (create / seek / header-rewrite / close failure; a byte limit at 0,1,83,84,85, around every 4096-byte flush boundary, size-50, size-1) x item counts {0,1,81,300,700} x all schedules with <=2 preemptions; ToSVG (create/limit), To3MF and ToDXF against a nonexistent directory, /dev/full and a writable path; the real uniform and octree renderers (1-2 workers) into the collector and a failing STL sink. 'Never returns' = deadlock (main unfinished, no enabled thread). Goroutine accumulation = census of threads still parked after k=1..4 consecutive renders must not grow with k.",
+   text="render.ToSTL on the in-memory file system under every fault plan (create / seek / header-rewrite / close failure; a byte limit at 0,1,83,84,85, around every 4096-byte flush boundary, size-50, size-1) x item counts {0,1,81,300,700} x ALL schedules (unbounded, happens-before state hashing); ToSVG (create/limit), To3MF and ToDXF against a nonexistent directory, /dev/full and a writable path; the real uniform and octree renderers (1-2 workers) into the collector and a failing STL sink. 'Never returns' = deadlock (main unfinished, no enabled thread). Goroutine accumulation = census of threads still parked after k=1..4 consecutive renders must not grow with k.",
    note="I/O failure modelled as error returns of Create/Write/Seek/Close; kernel signal behaviour outside the model"),
+ "C09": dict(engine="S", design="3/C09",
+   technique="stateless model checking of the real render pipeline under a controlled scheduler (preemption-bounded DFS + happens-before state pruning) with an in-scheduler vector-clock race detector; reference = sequential cell loop",
+   text="The real uniform marching-cubes pipeline (process-global evaluation channel and workers, layer batches of 100, Triangle3Buffer, writer goroutine; sync/chan/go rewritten onto the scheduler, shared mutable package variables and receiver fields instrumented with read/write events) on position-coded lookup fields over lattices whose layers are 9, 25, 100 (exactly one batch) and 121 points, with 1-3 workers and yields inside Evaluate: ToTriangles and ToSTL under all schedules with <=2-3 preemptions, two different renders concurrently, and A;B;A histories; octree and marching-squares renderers through ToTriangles/ToSVG under all schedules. Every execution must reproduce the independent sequential reference (per-cell step over the discovered lattice) / identical file bytes; the probe render must evaluate the same points under two opposite scheduling policies; any pair of accesses to instrumented shared state that is not ordered by happens-before is a violation.",
+   note="GOMAXPROCS itself is not varied (the worker count is); weak-memory effects not modelled; happens-before pruning assumes race freedom, which the vector-clock detector checks on the instrumented state; DXF/3MF bytes not explored under the scheduler"),
 }
 props = [json.loads(l) for l in open(os.path.join(V, "properties.jsonl"))]
 pending_reason = "check not built yet in this session (work in progress, see DESIGN.md section 3 for the planned bounded-exhaustive check)"
